@@ -71,6 +71,10 @@ def _configs(tier, seed):
             m = r.choice([0, 1, 2, 3, 3])
             cfg.append(dict(kind=kind, mlen=m, slen=r.randint(1, 3) if not m else m, prior=r.choice([5, 10, 10, 10, 15, 20]),
                             prefer=r.random() < 0.3, mark=r.choice(["none"] * 5 + ["finish", "nofinish"])))
+        if k % 8 == 6:
+            # priorities of any size ("arbitrary priorities"): beyond 7 digits, beyond 32 bits (finding D35: the order key was a formatted string)
+            for c in cfg:
+                c["prior"] = r.choice([3, 10, 10**7, 10**8, 2**31 + 5, 10**12])
         out.append({"cfg": cfg, "kw": r.random() < 0.3, "ic": r.random() < 0.15, "origin": "det" if k % 2 == 0 else "rand"})
     # every configuration is also scanned in a state that expects STOP as well (every other exhaustive one, all random ones)
     out += [dict(c, stop=True) for i, c in enumerate(out) if i % 2 == 0 or len(c["cfg"]) > 2]
@@ -118,6 +122,10 @@ def worker(job):
         keys = [k for k in st.actions if k.name not in ("EMPTY",)]
         names_sorted = sorted(k.name for k in keys)
         terms = []
+        # TLC integers are 32-bit and Lexer!Key multiplies: priorities beyond 10^5 are handed over as their RANKS (the documented choice
+        # depends on their order only)
+        allp = sorted({k.prior for k in keys})
+        prank = (lambda x: allp.index(x) + 1) if allp[-1] > 10**5 else (lambda x: x)
         for k in keys:
             rec = k.recognizer
             m = None
@@ -126,7 +134,7 @@ def worker(job):
             except TypeError:
                 m = None
             tkind = "kw" if k.keyword else "str" if type(rec).__name__ == "StringRecognizer" else "re" if type(rec).__name__ == "RegExRecognizer" else "custom"
-            terms.append({"name": k.name, "kind": tkind, "prior": k.prior, "prefer": bool(k.prefer),
+            terms.append({"name": k.name, "kind": tkind, "prior": prank(k.prior), "prefer": bool(k.prefer),
                           "mark": "none" if k.finish is None else "finish" if k.finish else "nofinish",
                           "slen": slens.get(k.name, 0) if tkind in ("str", "kw") else 0, "nrank": names_sorted.index(k.name) + 1,
                           "mlen": len(m) if m else 0})
